@@ -3,14 +3,13 @@ import Yaql.Model.Types
 Model of overload resolution: `specs.py:FunctionDefinition.map_args/get_delegate`,
 `runner.py:call/choose_overload/translate_args/_is_specialization_of`, and the layer
 walk of `contexts.py:ContextBase.collect_functions`, as the code is now (after the
-repair of the winner selection).
+repair of the winner selection and of `PythonType.is_specialization_of`).
 
 Dicts are insertion-ordered association lists.  The one place where the model
 normalises a dict is the keyword part of a mapping (`map_args` result): it is
 listed in the order of the call's keyword arguments.  After a successful
 `map_args` its key set IS the set of the call's keyword names (every keyword is
-consumed by a named parameter or by `**`), and its order is only observable
-through which `TypeError` of a tuple-vs-class comparison comes first.
+consumed by a named parameter or by `**`), and its order is not observable.
 -/
 namespace Yaql.Resolve
 open Yaql.Types
@@ -246,7 +245,6 @@ inductive Err where
   | ambiguous            -- AmbiguousFunction / AmbiguousMethod
   | argument             -- ArgumentException out of translate_args (keywords to a no_kwargs function)
   | mappingTranslation   -- MappingTranslationException
-  | pyTypeError          -- TypeError out of PythonType.is_specialization_of (tuple vs class)
 deriving Repr, DecidableEq, Inhabited
 
 structure Outcome where
@@ -376,24 +374,19 @@ def evalKw : List Bool → KwArgs → KwArgs × List Nat
       if !isLazy && a.evaluable then ((k, a.evaluated) :: as, a.evalLog ++ lg) else ((k, a) :: as, lg)
 
 /-- body of the two loops of `_is_specialization_of`; the accumulator is `res` -/
-def specLoop (L : Lattice) : List (PTy × PTy) → Bool → Option Bool
-  | [], res => some res
+def specLoop (L : Lattice) : List (PTy × PTy) → Bool → Bool
+  | [], res => res
   | (t1, t2) :: r, res =>
-      match isSpecializationOf L t2 t1 with
-      | none => none
-      | some true => some false
-      | some false =>
-          match isSpecializationOf L t1 t2 with
-          | none => none
-          | some true => specLoop L r true
-          | some false => specLoop L r res
+      if isSpecializationOf L t2 t1 then false
+      else if isSpecializationOf L t1 t2 then specLoop L r true
+      else specLoop L r res
 
 def Mapping.typePairs (m1 m2 : Mapping) : List (PTy × PTy) :=
   (m1.pos.zip m2.pos).map (fun p => (p.1.ty, p.2.ty)) ++
   (m1.kwd.zip m2.kwd).map (fun p => (p.1.2.ty, p.2.2.ty))
 
-/-- `_is_specialization_of(mapping1, mapping2)`; `none` = TypeError -/
-def isSpecM (L : Lattice) (m1 m2 : Mapping) : Option Bool := specLoop L (m1.typePairs m2) false
+/-- `_is_specialization_of(mapping1, mapping2)` -/
+def isSpecM (L : Lattice) (m1 m2 : Mapping) : Bool := specLoop L (m1.typePairs m2) false
 
 structure Match where
   cand : Cand
@@ -401,24 +394,17 @@ structure Match where
 deriving Repr, DecidableEq, Inhabited
 
 /-- `all(other is mapping or _is_specialization_of(mapping, other) for _, other in matches)` -/
-def allSpec (L : Lattice) (m : Match) : List Match → Option Bool
-  | [] => some true
+def allSpec (L : Lattice) (m : Match) : List Match → Bool
+  | [] => true
   | o :: r =>
       if o.cand.fd.id == m.cand.fd.id then allSpec L m r
-      else match isSpecM L m.cand.mapping o.cand.mapping with
-        | none => none
-        | some false => some false
-        | some true => allSpec L m r
+      else if isSpecM L m.cand.mapping o.cand.mapping then allSpec L m r
+      else false
 
 /-- the list comprehension `winners = [...]` -/
-def winners (L : Lattice) (ms : List Match) : List Match → Option (List Match)
-  | [] => some []
-  | m :: r =>
-      match allSpec L m ms with
-      | none => none
-      | some b => match winners L ms r with
-          | none => none
-          | some ws => some (if b then m :: ws else ws)
+def winners (L : Lattice) (ms : List Match) : List Match → List Match
+  | [] => []
+  | m :: r => if allSpec L m ms then m :: winners L ms r else winners L ms r
 
 def matchesOf (L : Lattice) (args : List Arg) (kw : KwArgs) (cs : List Cand) : List Match :=
   cs.filterMap fun c => (getDelegate L c.fd.params args kw).map fun b => ⟨c, b⟩
@@ -431,9 +417,8 @@ def selectLevel (L : Lattice) (args : List Arg) (kw : KwArgs) :
       let ms := matchesOf L args kw lv
       if ms.isEmpty then selectLevel L args kw r
       else match winners L ms ms with
-        | none => .error .pyTypeError
-        | some [w] => .ok (w.cand.fd.id, w.bound)
-        | some _ => .error .ambiguous
+        | [w] => .ok (w.cand.fd.id, w.bound)
+        | _ => .error .ambiguous
 
 /-- `if receiver is not utils.NO_VALUE: args = (receiver,) + args` -/
 def callArgs (c : Call) : List Arg :=
